@@ -59,9 +59,13 @@ def plan(tier, seed):
                    for s in plan_graph_shards("A", n_max=4, chunk=16) + plan_graph_shards("B", n_max=5, n_min=5, k=3, parts=4)]
         shards += [dict(s, implicit=True, bound=s["bound"] + " ancestors implicit")
                    for s in plan_graph_shards("A", n_max=4, chunk=16) + plan_graph_shards("B", n_max=5, n_min=5, k=3, parts=4)]
+    from .c02 import pair_cases
+
+    for lo in range(0, len(pair_cases()) + 200, 160):
+        shards.append({"part": "scan", "lo": lo, "hi": lo + 160, "bound": "reports on scanned two-statement files"})
     return {
         "shards": shards,
-        "require_nonzero": ["lines:imports", "lines:missing", "lines:missing-any", "query:get", "query:other-from", "query:other-on"],
+        "require_nonzero": ["scan-message", "lines:imports", "lines:missing", "lines:missing-any", "query:get", "query:other-from", "query:other-on"],
     }
 
 
@@ -188,8 +192,87 @@ def _so(ns):
     return _SO_CACHE[key]
 
 
+def scan_messages(shard, res, only=None):
+    """Reports on architectures that come from real source files: a file with two import statements
+    (same name from two modules, several names in one statement, star imports), scanned with the
+    default options and with external libraries included plus an external exclusion pattern that
+    textually matches internal names; 'importer should not import anything' must list exactly the
+    statements' targets, '... should only import <first target>' exactly the others."""
+    import os
+
+    from pytestarch import Rule
+
+    from ..common import remove_scratch, scratch_dir, write_tree
+    from ..scan import scan
+    from .c02 import SKELETON, pair_cases
+
+    base = scratch_dir(f"c03-scan-{shard.get('lo', 0)}")
+    viol = []
+    try:
+        write_tree(base, SKELETON)
+        root = os.path.join(base, "top")
+        cases = pair_cases()
+        extra = []
+        for rel, imod, fid, src, must in cases:
+            if fid == "same-name":
+                t1, t2 = sorted(must)
+                p1, _, l1 = t1.rpartition(".")
+                p2, _, l2 = t2.rpartition(".")
+                if p1 == p2 and p1:
+                    extra.append((rel, imod, "two-names-one-statement", f"from {p1} import {l1}, {l2}", must))
+        for rel, imod, fid, src, must in (cases + extra)[shard.get("lo", 0) : shard.get("hi")]:
+            for oi, opts in enumerate(({}, {"exclude_external_libraries": False, "external_exclusions": ("*b*", "*top*")})):
+                key = [rel, fid, src, oi]
+                if only is not None and only != key:
+                    continue
+                path = os.path.join(base, rel)
+                try:
+                    with open(path, "w") as f:
+                        f.write(src + "\n")
+                    ev = scan(root, root, **opts)
+                finally:
+                    with open(path, "w") as f:
+                        f.write("")
+                res.states += 1
+                res.transitions += 2
+                res.evaluations += 1
+                res.traces += 1
+                res.nontrivial += 1
+                res.stats["scan-message"] += 1
+                targets = sorted(must)
+                checks = [(Rule().modules_that().are_named(imod).should_not().import_anything(), {(imod, t) for t in targets}),
+                          (Rule().modules_that().are_named(imod).should_only().import_modules_that().are_named(targets[0]),
+                           {(imod, t) for t in targets[1:] if not t.startswith(targets[0] + ".")})]
+                for rule, want in checks:
+                    got = run_rule(rule, ev)
+                    if not want:
+                        continue
+                    if got[0] != FAIL:
+                        viol.append(("violating-import-not-reported", {"part": "scan", "key": key}, sorted(map(list, want)), list(got)))
+                        break
+                    try:
+                        real, miss = parse_rule_message(got[1], True)
+                    except Unparsable as e:
+                        viol.append(("unparsable-line", {"part": "scan", "key": key}, "a line of the documented grammar", str(e)))
+                        break
+                    real = {(u, v) for u, v in real if not imod.startswith(v + ".")}
+                    if real != want:
+                        viol.append(("violating-import-not-reported" if want - real else "reported-import-not-in-violating-set",
+                                     {"part": "scan", "key": key}, sorted(map(list, want)), sorted(map(list, real))))
+                        break
+    finally:
+        remove_scratch(base)
+    return viol
+
+
 def run_shard(shard, tier, seed):
     res = Result(shard["bound"])
+    if shard.get("part") == "scan":
+        for kind, case, exp, got in scan_messages(shard, res):
+            res.violation(kind, case, exp, got)
+        res.sample({"part": "scan", "file": "top/a.py", "source": "from top.b.c import helper\nfrom top.x import helper",
+                    "rule": "top.a should not import anything", "expected_lines": ['"top.a" imports "top.b.c".', '"top.a" imports "top.x".']})
+        return res
     for ns, I in shard_graphs(shard, seed):
         ns, I = renamed_graph(ns, I, shard.get("naming", "identity"))
         ev = build(ns, I, seed, phantom=shard.get("phantom", False), implicit=shard.get("implicit", False))
@@ -210,6 +293,9 @@ def run_shard(shard, tier, seed):
 
 
 def _check_case(case):
+    if case.get("part") == "scan":
+        v = scan_messages({}, Result(), only=case["key"])
+        return (v[0][0], v[0][2], v[0][3]) if v else None
     ns, I = case["modules"], [tuple(e) for e in case["imports"]]
     ev = build(ns, I, case.get("seed", 0), phantom=case.get("phantom", False), implicit=case.get("implicit", False))
     if "rule" in case:
@@ -224,6 +310,8 @@ def _check_case(case):
 
 
 def minimise(v):
+    if v["case"].get("part") == "scan":
+        return dict(v, signature=f"{v['kind']}:scan:{v['case']['key'][1]}:opts{v['case']['key'][3]}")
     case = dict(v["case"])
     kind = v["kind"]
     changed = True
